@@ -113,6 +113,8 @@ def run(tier, seed, t0):
     jobs = [(lambda m=m: ob_encrypt(m, 3)) for m in ml] + [lambda: ob_encrypt(5, 0), lambda: ob_encrypt(5, 17)]
     jobs += [(lambda L=L: ob_decrypt(L, 3)) for L in dl]
     jobs += [(lambda k=k: ob_kdf(64, k)) for k in (1, 32, 33, 287)]
+    import c13
+    jobs += [lambda: c13.g1_ob("is_on_curve", 1, c13.chk_on_curve, "is_on_curve")]
     res = run_parallel(jobs, nproc=12)
     return finish("C10", tier, seed, "model_checking", res, t0,
                   assumptions=["pairing and group layers uninterpreted (C12/C13), H1 framing in C16; the library derives 287 KDF bytes and slices them, which equals KDF(., |M|+32) by prefix-consistency of the KDF (kdf obligations)",
